@@ -110,6 +110,11 @@ func (s *state) shift(sh ast.Shift) (*ir.Operand, error) {
 		return nil, err
 	}
 
+	// Shift by zero produces no new element: the result is the operand itself.
+	if sh.S == 0 {
+		return x, nil
+	}
+
 	s.n += int(sh.S)
 	out := ir.Index(s.n - 1)
 	inst := &ir.Instruction{
